@@ -1499,11 +1499,11 @@ int main(int argc, char** argv)
     }
     else if (a[0] == "--info")
     {
-        // not judged (outside the statement, see NOTES.md): scalbln with exponents that only fit a long
+        // not judged (see NOTES.md): scalbln at the very ends of long, where the unmodified `exp += abs>>10` / `--exp` overflow a long
         volatile long big = LONG_MAX, small = LONG_MIN;
         u16 r1 = bits(half_float::scalbln(mk(0x3C00), big)), r2 = bits(half_float::scalbln(mk(0x0001), small));
         vf::note("information only, not judged: scalbln(1, LONG_MAX) = " + hx(r1) + ", scalbln(2^-24, LONG_MIN) = " + hx(r2) +
-                 " (the statement names ldexp/scalbn, whose int exponents cannot overflow the internal long)");
+                 " (signed long overflow inside the unmodified scalbln; every other long exponent is judged, the alphabet reaches LONG_MAX-32 and LONG_MIN+16)");
     }
     else if (a[0] == "--alphabet-size") { std::printf("%zu %zu\n", alphabet(1).size(), alphabet(2).size()); return 0; }
     else return 3;
